@@ -498,13 +498,12 @@ func (self *Lexer) makeEquals() Token {
 
 func (self *Lexer) makeOr() Token {
 	startLocation := self.location
-	self.advance()
 
 	tokenKind := BitOr
 	value := "|"
 
-	if self.currentChar != nil {
-		switch *self.currentChar {
+	if self.nextChar != nil {
+		switch *self.nextChar {
 		case '|':
 			tokenKind = Or
 			value = "||"
@@ -532,13 +531,12 @@ func (self *Lexer) makeOr() Token {
 
 func (self *Lexer) makeAnd() Token {
 	startLocation := self.location
-	self.advance()
 
 	tokenKind := BitAnd
 	value := "&"
 
-	if self.currentChar != nil {
-		switch *self.currentChar {
+	if self.nextChar != nil {
+		switch *self.nextChar {
 		case '&':
 			tokenKind = And
 			value = "&&"
@@ -565,25 +563,27 @@ func (self *Lexer) makeAnd() Token {
 
 func (self *Lexer) makeBitXor() Token {
 	startLocation := self.location
-	self.advance()
 
 	tokenKind := BitXor
 	value := "^"
 
-	if self.currentChar != nil && *self.currentChar == '=' {
+	if self.nextChar != nil && *self.nextChar == '=' {
 		tokenKind = BitXorAssign
 		value = "^="
 		self.advance()
 	}
 
-	return newToken(
+	token := newToken(
 		tokenKind,
 		value,
 		errors.Span{
-			Start: startLocation,
-			End:   self.location,
+			Start:    startLocation,
+			End:      self.location,
+			Filename: self.filename,
 		},
 	)
+	self.advance()
+	return token
 }
 
 func (self *Lexer) makeNot() Token {
